@@ -393,6 +393,11 @@ FIXED += [
         _c("Root", "", abstract=True), _c("Atom", "", [("n", ("ann", ("base", "str"), ("VarRange", ["x", "y"])))]),
         _c("Leaf", "Root", [("v", I01)]),
         _c("Wrap", "Root", [("inner", ("union", [("sym", "Atom"), ("sym", "Root")]))])]},
+    # a size-refined list whose ELEMENTS are refined too
+    {"id": "sizedrefined", "start": "S", "classes": [
+        _c("S", "", abstract=True),
+        _c("Vec", "S", [("xs", ("ann", ("list", ("ann", ("base", "int"), ("IntRange", -1, 1))), ("ListSize", 1, 2)))]),
+        _c("Two", "S", [("a", ("sym", "S"))])]},
     # weighted productions whose weights do not add up to a power of two
     {"id": "weighted", "start": "Expr", "classes": [
         _c("Expr", "", abstract=True), _c("Lit", "Expr", [("v", I01)], weight=3),
